@@ -24,7 +24,9 @@ Files(who) == IF who = 1 THEN ("conf" :> 100) @@ ("onlya" :> 1) ELSE ("conf" :> 
 ExportOf(lib) == IF lib = "conf" THEN "answer" ELSE "only-a"
 Alphabet(who) ==     \* the same names in both programs; what is defined differs by instance
   IF Family = "files"
-  THEN {ImportFile("conf"), ImportFile("onlya"), Var("answer"), Define("answer", Num(IF who = 1 THEN 1 ELSE 2)), Var("only-a")}
+  \* (the library files also define a macro m for their own use: syntax defined inside a library is not visible to
+  \*  any importer, let alone to another instance - (m 5) is an unbound variable everywhere)
+  THEN {ImportFile("conf"), ImportFile("onlya"), Var("answer"), Define("answer", Num(IF who = 1 THEN 1 ELSE 2)), Var("only-a"), MacroUse("m", Num(5))}
   ELSE
   {Define("x", Num(IF who = 1 THEN 1 ELSE 2)),
    Set("x", Call("+", <<Var("x"), Num(10)>>)),
